@@ -285,9 +285,15 @@ def write_target(P, tc):
     I = W.make_interp(P, elem=W.EAM_ELEM)
     if excel:
         excelmodel.install(I)
-    params = tc.lookup("__init__").params()[1:]
+    init = tc.lookup("__init__")
+    params = init.params()[1:]
+    ndef = len(init.node.args.defaults)
+    optional = set(params[len(params) - ndef:]) if ndef else set()
     args = []
     for p in params:
+        if p in optional and p not in ("potentials", "eam_potentials", "dipole_potentials", "quadrupole_potentials", "cutoff", "nr",
+                                       "cutoff_rho", "nrho"):
+            break            # options keep their defaults (every parameter after the first optional one too)
         if p == "potentials":
             args.append(concrete_pots(I, P) if excel else W.param("potentials"))
         elif p == "eam_potentials":
@@ -963,6 +969,16 @@ def _enclosing_try(fnode, handler):
     return None
 
 
+def _after(fnode, stmt):
+    """the statements that follow stmt in its own block"""
+    for n in ast.walk(fnode):
+        for fld in ("body", "orelse", "finalbody"):
+            blk = getattr(n, fld, None)
+            if isinstance(blk, list) and stmt in blk:
+                return blk[blk.index(stmt) + 1:]
+    return []
+
+
 def no_swallowing(chk, P):
     """an error caught on the configuration path is re-raised (as a configuration error: E8), answered with a fallback value,
     or ends the program - never dropped, because what the try block was computing is then missing further on"""
@@ -992,6 +1008,13 @@ def no_swallowing(chk, P):
                                              for t in (node.type.elts if isinstance(node.type, ast.Tuple) else [node.type])):
                 continue
             ok = False
+            tr0 = _enclosing_try(fi.node, node)
+            if not eff and tr0 is not None and tr0.body and isinstance(tr0.body[-1], ast.Return) and not tr0.finalbody and not tr0.orelse \
+                    and not any(isinstance(n, ast.Name) and isinstance(n.ctx, ast.Store) for st in tr0.body for n in ast.walk(st)) \
+                    and fi.node.body and any(isinstance(n, (ast.Return, ast.Raise)) for st in _after(fi.node, tr0) for n in ast.walk(st)):
+                # 'try: return <look-up>' with an empty handler: the guarded block hands its result straight back and binds
+                # nothing, so nothing it computed is missing in the code after it - that code is the other way to the result
+                ok = True
             if eff:
                 last = eff[-1]
                 if isinstance(last, (ast.Raise, ast.Return, ast.Continue, ast.Break)):
